@@ -224,11 +224,36 @@ static std::string setstr(const std::vector<size_t> &v) { std::string s = "{"; f
 
 struct JointResult { bool have_x = false; Z x, xp; std::vector<size_t> H; };
 
+// Liveness inside the synchrony assumption: every unicast message is delivered within <= 3 virtual
+// seconds, so an honest party must never run into a time-out (30 s) while waiting for a message
+// of another honest party.  The library logs each such time-out ("receiving ... failed; complaint
+// against P_j", "no share received from P_j"); the last integer of the line is the sender.
+static bool scan_honest_timeouts(Verdicts &V, std::vector<Party *> &P, int ph) {
+	const Scen &sc = V.sc; bool found = false;
+	for (auto p : P) {
+		if (sc.faulty(p->i)) continue;
+		std::istringstream in(p->err[ph].str()); std::string line;
+		while (std::getline(in, line)) {
+			bool rx = (line.find("receiving") != std::string::npos && line.find("failed") != std::string::npos) || line.find("no share received") != std::string::npos;
+			if (!rx) continue;
+			size_t e = line.find_last_of("0123456789"); if (e == std::string::npos) continue;
+			size_t b = e; while (b > 0 && isdigit((unsigned char)line[b - 1])) b--;
+			size_t from = (size_t)atol(line.substr(b, e - b + 1).c_str());
+			if (from >= sc.n || sc.faulty(from) || from == p->i) continue;
+			long rq = 0; for (auto q : P) if (q->aiou2) rq += q->aiou2->rreq[ph];
+			V.viol("honest-timeout", ph, "an honest party ran into a time-out waiting for a message of another honest party although every link delivers within 3 s", J().kv("party", (long long)p->i).kv("waiting_for", (long long)from).kv("log_line", line).kv("r_requests_sent_in_phase", rq));
+			found = true; break;
+		}
+	}
+	return found;
+}
+
 // state of the honest parties after a joint sharing / key generation phase
 static void check_joint(Verdicts &V, const Group &G, std::vector<Party *> &P, int ph, size_t deg, bool zero_secret, JointResult &R) {
 	const Scen &sc = V.sc; size_t n = sc.n;
 	std::vector<size_t> H; for (size_t i = 0; i < n; i++) if (!sc.faulty(i)) H.push_back(i);
 	R.H = H;
+	if (scan_honest_timeouts(V, P, ph)) return;     // root cause reported; the state that follows from it is not judged again
 	// 0. every honest party finished and reports success
 	bool all_ok = true;
 	for (size_t i : H) {
@@ -313,6 +338,7 @@ static void check_pvss(Verdicts &V, const Group &G, std::vector<Party *> &P) {
 	std::vector<size_t> H, Rcv; for (size_t i = 0; i < n; i++) if (!sc.faulty(i)) { H.push_back(i); if (i != d) Rcv.push_back(i); }
 	for (size_t i : H) { Snap &s = P[i]->snap[0]; if (s.threw) { V.viol("exception", 0, "honest party's Share threw " + s.exc, J().kv("party", (long long)i)); return; } if (!s.called) return; }
 	if (Rcv.empty()) return;
+	if (scan_honest_timeouts(V, P, 0) || scan_honest_timeouts(V, P, 1)) return;
 	// verdict on the dealer: equal at all honest receivers
 	bool v0 = P[Rcv[0]]->snap[0].ret;
 	for (size_t i : Rcv) { V.evals++; if (P[i]->snap[0].ret != v0) { V.viol("dealer-verdict-disagree", 0, "honest receivers disagree whether the dealer is qualified", J().kv("party_a", (long long)Rcv[0]).kv("ret_a", v0).kv("party_b", (long long)i).kv("ret_b", P[i]->snap[0].ret)); return; } }
@@ -395,12 +421,20 @@ static Dev make_dev(int kind, const Scen &sc, size_t f, Rng &r) {
 		d.phase = (sc.proto == P_CDKG) ? (int)r.below(2) : 0;
 		d.victim = (sc.proto == P_PVSS) ? sc.dealer : honest[r.below(honest.size())];
 		long nend = (sc.proto == P_CDKG && d.phase == 0) ? 5 : (sc.proto == P_PVSS ? 1 : (sc.proto == P_GJKR ? 3 : 2));
-		// complaint lists end with the odd end markers; even ones close the reveal lists (malformed stream)
-		d.k = (r.below(4) == 0) ? 1 + (long)r.below((uint64_t)nend) : 1 + 2 * (long)r.below((uint64_t)((nend + 1) / 2)); break; }
+		// the first end marker closes the complaint list of the (first) sharing: that is the plain false complaint;
+		// later markers close reveal lists / later complaint lists (malformed or late accusations)
+		d.k = (r.below(3) != 0) ? 1 : 1 + (long)r.below((uint64_t)nend);
+		d.k2 = (r.below(3) == 0) ? 2 : 1;      // sometimes the complaint is sent twice
+		break; }
 	case D_SILENT: {
 		d.phase = (np == 2) ? (int)r.below(2) : 0; if (d.phase == 1) d.phase = 1;
 		size_t B = bcasts_in_phase(sc.proto, t, sc.tp, d.phase, dealer);
 		d.k = (long)r.below((uint64_t)B); if (d.phase == 0 && r.below(4) == 0) d.k = 0; break; }
+	case D_BAD_REVEAL: {
+		// wrong first share to one honest recipient, and a wrong value again when the share is published
+		d.phase = (sc.proto == P_CDKG) ? (int)r.below(2) : 0;
+		d.victim = honest[r.below(honest.size())];
+		d.k = (long)((sc.proto == P_PVSS) ? t + 3 : ((sc.proto == P_RVSS || sc.proto == P_ZVSS) ? sc.tp + 4 : t + 4)); break; }
 	case D_BC_ALTER: {
 		d.phase = (np == 2) ? (int)r.below(2) : 0;
 		if (sc.proto == P_PVSS && !dealer) d.phase = 1;   // receivers: a wrong share during reconstruction
@@ -411,8 +445,8 @@ static Dev make_dev(int kind, const Scen &sc, size_t f, Rng &r) {
 }
 
 static std::vector<int> kinds_for(int proto, bool dealer) {
-	if (proto == P_PVSS) return dealer ? std::vector<int>{D_BUILTIN, D_WRONG_SHARE, D_SILENT, D_BC_ALTER} : std::vector<int>{D_BUILTIN, D_FALSE_COMPLAINT, D_SILENT, D_BC_ALTER};
-	return {D_BUILTIN, D_WRONG_SHARE, D_FALSE_COMPLAINT, D_SILENT, D_BC_ALTER};
+	if (proto == P_PVSS) return dealer ? std::vector<int>{D_BUILTIN, D_WRONG_SHARE, D_SILENT, D_BC_ALTER, D_BAD_REVEAL} : std::vector<int>{D_BUILTIN, D_FALSE_COMPLAINT, D_SILENT, D_BC_ALTER};
+	return {D_BUILTIN, D_WRONG_SHARE, D_FALSE_COMPLAINT, D_SILENT, D_BC_ALTER, D_BAD_REVEAL};
 }
 
 static void set_net(Scen &sc, int mode, Rng &r) {   // 0 plain, 1 delays, 2 pre-emption, 3 both
@@ -456,6 +490,19 @@ static void build_list(std::vector<Scen> &L) {
 					for (int rep = 0; rep < reps; rep++) { Scen sc = base(p, n, 1); sc.dealer = dl; sc.F = {f}; sc.devs = {make_dev(kind, sc, f, r)}; add(sc); }
 				}
 			}
+		}
+		// ---- targeted scripts for every protocol: plain false complaint in the first complaint list, the same
+		//      complaint sent twice, wrong first share to one recipient, wrong share that is also published wrongly
+		for (int v = 0; v < 4; v++) {
+			size_t n = 4 + (size_t)(v & 1); Scen sc = base(p, n, 1); size_t f = r.below(n);
+			int kind = v < 2 ? D_FALSE_COMPLAINT : (v == 2 ? D_WRONG_SHARE : D_BAD_REVEAL);
+			if (p == P_PVSS) sc.dealer = (v < 2) ? (f + 1 + r.below(n - 1)) % n : f;
+			sc.F = {f}; Dev d = make_dev(kind, sc, f, r); d.phase = 0;
+			if (v < 2) { d.k = 1; d.k2 = 1 + v; } else if (v == 2) d.k = 0;
+			sc.devs = {d}; add(sc);
+		}
+		if (p == P_PVSS) {   // a wrong share broadcast during reconstruction by the first party every other party reads from
+			Scen sc = base(p, 4, 1); sc.dealer = 3; sc.F = {0}; Dev d; d.kind = D_BC_ALTER; d.phase = 1; d.k = 1; sc.devs = {d}; add(sc);
 		}
 		// ---- the library's own switches take random branches: a few more draws
 		for (int rep = 0; rep < (quick ? 3 : 8); rep++) {
